@@ -35,7 +35,7 @@ def _tok(rng, lo=1, hi=10):
 
 def gen_pin(rng):
     nfeat = int(rng.integers(0, 21))
-    nrows = int(rng.choice([1, 2, 3, 5, 20, 200], p=[.15, .15, .15, .2, .25, .1]))
+    nrows = int(rng.choice([1, 2, 3, 5, 20, 200, 999, 1000, 1001, 2000, 4096], p=[.15, .15, .15, .2, .2, .09, .01, .02, .01, .01, .01]))
     maxprot = int(rng.integers(1, 7))
     pos = rng.choice(["last", "middle", "first", "zero"])
     head = ["SpecId", "Label", "ScanNr"]
